@@ -205,6 +205,7 @@ Definition l_exec_remote (s : lstate) (o : op) : lstate :=
   | OIns i target vs => l_insert_remote s target (opid_ts i) vs
   | ODel i targets => l_delete_remote s targets (opid_ts i)
   | OUpd i targets vs => l_update_remote s targets vs (opid_ts i)
+  | OSnap _ => l_init
   | _ => s
   end.
 
